@@ -4,6 +4,8 @@
 obligation of its own carries a trailing `// @<clause-id>` marker on its line; tools/gen.py maps Verus diagnostics
 ("failed this postcondition" spans) back to these ids.
 """
+import re
+
 
 # ---------------------------------------------------------------------------------------------- Version (src/lib.rs)
 VERSION = {
@@ -437,3 +439,122 @@ for _k in ('allows_any', 'allows_all', 'intersect'):
     RANGE[_k]['loop_over'] = [(0, _SELF), (1, _OTHER)]
 RANGE['difference']['loop_over'] = [(0, _SELF), (1, _OTHER), (2, r'&$M1|$M1\.iter\(\)')]
 INTERSECT_ALL['loop_over'] = [(0, r'$P0|$P0\.iter\(\)')]
+
+
+# ====================================================================================================================================
+# Text shell, version grammar (C05): the grammar functions of src/lib.rs under the assumed winnow contracts of contracts/winnow_shim.rs.
+# For each function: output type, what it accepts / rejects (against the reference grammar of contracts/vgrammar_spec.rs), the
+# annotations its closures need (exact snippet -> the same snippet with parameter types and a contract; exec tokens unchanged except
+# where a rewrite is named), and ghost code at function entry.
+E_STR = "SemverParseError<&'s str>"
+
+
+def _lits(*cs):
+    return 'proof { ' + ' '.join('reveal_strlit("%s"); assert("%s"@ =~= ch1(\'%s\')); lemma_prefix1(\'%s\');' % (c, c, c, c) for c in cs) + ' }\n    '
+
+
+_SEP_HINT = """let ghost lit = Literal { t: "." };
+    proof {
+        assert(is_ident_parser::<SemverParseError<&'s str>, _>(identifier));
+        assert(is_dot_parser::<SemverParseError<&'s str>, Literal>(lit));
+        assert forall|i: &'s str, out: Seq<Identifier>, rest: &'s str| out.len() >= 1 && #[trigger] sep_all::<&'s str, Identifier, &'s str, SemverParseError<&'s str>, _, Literal>(identifier, lit, i, out, rest) implies (g_idents(i@) matches Some((x, r)) && idents_are(out, x) && r == rest@) by {
+            lemma_sep_all_idents::<SemverParseError<&'s str>, _, Literal>(identifier, lit, i, out, rest);
+        }
+    }
+    """
+
+GRAMMAR = {
+    'number': dict(
+        O='u64', acc='g_number(i@) == Some((o as nat, rest@))', rej='g_number(i@) is None',
+        rewrites=[("|raw| {", "|raw: &'s str| -> (r: Result<u64, SemverParseError<&'s str>>)\n        ensures match r { Ok(v) => v <= MAX_SAFE_INTEGER && parse_spec::<u64>(raw@) == Some(v), Err(_) => parse_spec::<u64>(raw@) matches Some(v) ==> v > MAX_SAFE_INTEGER }\n    {", 'closure parameter typed, contract')],
+        entry='broadcast use ax_parse_u64_digits;\n    proof { lemma_span_props(input@, |c: char| dg_char(c)); }\n    '),
+    'version_core': dict(
+        O='(u64, u64, u64)', acc='g_core(i@) == Some(((o.0 as nat, o.1 as nat, o.2 as nat), rest@))', rej='g_core(i@) is None',
+        rewrites=[("|(major, _, minor, _, patch)| (major, minor, patch)",
+                   "|arg: (u64, &'s str, u64, &'s str, u64)| -> (r: (u64, u64, u64)) ensures r == (arg.0, arg.2, arg.4) { let (major, _, minor, _, patch) = arg; (major, minor, patch) }",
+                   'R2 closure pattern parameter bound by `let`')],
+        entry=_lits('.')),
+    'identifier': dict(
+        O='Identifier', acc='g_ident(i@) matches Some((s, r)) && ident_is(o, s) && r == rest@', rej='g_ident(i@) is None',
+        rewrites=[(re.compile(r"take_while\((\S+), \|(\w+): char\| (.*)\),\n"), r"take_while(\1, |\2: char| -> (b: bool) ensures b == id_char(\2) { \3 }),\n", 'closure contract (the predicate of take_while, whatever its text)'),
+                  ("|s: &str| {", "|s: &str| -> (r: Identifier) requires s@.len() > 0, all_id_chars(s@) ensures ident_is(r, classify(s@)) {\n            broadcast use ax_parse_u64_digits, ax_parse_u64_nondigit;", 'closure contract'),
+                  ('.map(Identifier::Numeric)', '.map(|n: u64| -> (i: Identifier) ensures i == Identifier::Numeric(n) { Identifier::Numeric(n) })', 'R12 constructor eta-expanded'),
+                  ('.unwrap_or_else(|_err| Identifier::AlphaNumeric(s.to_string()))', '.unwrap_or_else(|_err: std::num::ParseIntError| -> (i: Identifier) ensures i matches Identifier::AlphaNumeric(t) && t@ == s@ { Identifier::AlphaNumeric(s.to_string()) })', 'closure contract')],
+        entry='proof { lemma_span_props(input@, |c: char| id_char(c)); }\n    '),
+    'build': dict(
+        O='Vec<Identifier>', acc='g_build(i@) matches Some((s, r)) && idents_are(o@, s) && r == rest@', rej='g_build(i@) is None',
+        rewrites=[], entry=_lits('.', '+') + _SEP_HINT),
+    'pre_release': dict(
+        O='Vec<Identifier>', acc='g_pre(i@) matches Some((s, r)) && idents_are(o@, s) && r == rest@', rej='g_pre(i@) is None',
+        rewrites=[], entry=_lits('.', '-') + _SEP_HINT),
+    'extras': dict(
+        O='(Vec<Identifier>, Vec<Identifier>)', acc='idents_are(o.0@, g_extras(i@).0.0) && idents_are(o.1@, g_extras(i@).0.1) && rest@ == g_extras(i@).1', rej='false',
+        rewrites=[('Extras::ReleaseAndBuild)', '|x: (Vec<Identifier>, Vec<Identifier>)| -> (r: Extras) ensures r == Extras::ReleaseAndBuild(x) { Extras::ReleaseAndBuild(x) })', 'R12 constructor eta-expanded'),
+                  ('Extras::Release)', '|x: Vec<Identifier>| -> (r: Extras) ensures r == Extras::Release(x) { Extras::Release(x) })', 'R12 constructor eta-expanded'),
+                  ('Extras::Build)', '|x: Vec<Identifier>| -> (r: Extras) ensures r == Extras::Build(x) { Extras::Build(x) })', 'R12 constructor eta-expanded'),
+                  ('|extras| match extras {', '|extras: Option<Extras>| -> (r: (Vec<Identifier>, Vec<Identifier>)) ensures extras_vals(extras, r) { match extras {', 'closure parameter typed, contract'),
+                  ('            _ => Default::default(),\n        },', '            _ => Default::default(),\n        } },', 'closure body braces')],
+        entry=''),
+    'version': dict(
+        O='Version', acc='g_version(i@) matches Some((s, r)) && version_is(o, s) && r == rest@', rej='g_version(i@) is None',
+        rewrites=[('|(_, _, (major, minor, patch), (pre_release, build))| Version {',
+                   "|arg: (Option<&'s str>, &'s str, (u64, u64, u64), (Vec<Identifier>, Vec<Identifier>))| -> (r: Version) ensures r.major == arg.2.0, r.minor == arg.2.1, r.patch == arg.2.2, r.pre_release == arg.3.0, r.build == arg.3.1 { let (_, _, (major, minor, patch), (pre_release, build)) = arg; Version {",
+                   'R2 closure pattern parameter bound by `let`'),
+                  ('                build,\n            },', '                build,\n            } },', 'closure body braces')],
+        entry=_lits('v', 'V')),
+}
+GRAMMAR_ORDER = ['number', 'version_core', 'identifier', 'build', 'pre_release', 'extras', 'version']
+
+
+def grammar_sig(name):
+    return "pub fn %s<'s>(input: &mut &'s str) -> (r: PResult<%s, %s>)" % (name, GRAMMAR[name]['O'], E_STR)
+
+
+GRAMMAR_CONTRACT_T = "    ensures\n        (r matches Ok(o) ==> %s_acc(*old(input), o, *final(input))),\n        (r is Err ==> %s_rej(*old(input))),"
+
+
+def grammar_twins():
+    """the caller's view of every grammar function (modular verification: contract, no body) + the definitional axioms that say what the
+    function *as a parser value* accepts: its own contract"""
+    tw = []
+    for n in GRAMMAR_ORDER:
+        d = GRAMMAR[n]
+        O = d['O']
+        q = "Parser::<&'s str, %s, %s>" % (O, E_STR)
+        tw.append("pub open spec fn %s_acc<'s>(i: &'s str, o: %s, rest: &'s str) -> bool { %s }" % (n, O, d['acc']))
+        tw.append("pub open spec fn %s_rej<'s>(i: &'s str) -> bool { %s }" % (n, d['rej']))
+        tw.append("pub broadcast axiom fn def_%s_acc<'s>(i: &'s str, o: %s, rest: &'s str)\n    ensures #[trigger] %s::accepts(&%s, i, o, rest) <==> %s_acc(i, o, rest);" % (n, O, q, n, n))
+        tw.append("pub broadcast axiom fn def_%s_rej<'s>(i: &'s str)\n    ensures #[trigger] %s::rejects(&%s, i) <==> %s_rej(i);" % (n, q, n, n))
+        tw.append("pub broadcast axiom fn def_%s_pre<'s>(i: &'s str)\n    ensures #[trigger] %s::pre(&%s, i);" % (n, q, n))
+        tw.append("#[verifier::external_body]\n%s\n%s\n{ unimplemented!() }" % (grammar_sig(n), GRAMMAR_CONTRACT_T % (n, n)))
+    tw.append('pub broadcast group grammar_defs { %s }' % ', '.join('def_%s_%s' % (n, k) for n in GRAMMAR_ORDER for k in ('acc', 'rej', 'pre')))
+    return '\n'.join(tw)
+
+
+GRAMMAR_CONTRACT = "    ensures\n        (r matches Ok(o) ==> %s_acc(*old(input), o, *final(input))),\n        (r is Err ==> %s_rej(*old(input))),"
+
+EXTRAS_SPEC = """pub open spec fn extras_vals(e: Option<Extras>, r: (Vec<Identifier>, Vec<Identifier>)) -> bool {
+    match e {
+        Some(Extras::Release(p)) => r.0 == p && r.1@.len() == 0,
+        Some(Extras::Build(b)) => r.0@.len() == 0 && r.1 == b,
+        Some(Extras::ReleaseAndBuild(pb)) => r == pb,
+        None => r.0@.len() == 0 && r.1@.len() == 0,
+    }
+}
+"""
+PARSE_SPEC = """// R16: the payload of a SemverError (input, span, kind) is C17's subject and is built with `char_indices` and a pointer difference: every
+// `SemverError { .. }` literal of Version::parse is replaced by this opaque constructor
+pub struct SemverError { pub verif_opaque: u8 }
+#[verifier::external_body]
+pub fn verif_semver_error() -> SemverError { unimplemented!() }
+// the length as `str::len` reports it (bytes)
+pub open spec fn too_long(s: &str) -> bool { (s.spec_bytes().len() as usize) > MAX_LENGTH }
+// the whole text is a version: what g_version leaves unread is blanks only
+pub open spec fn ref_parse(s: Seq<char>) -> Option<VSpec> {
+    match g_version(s) { Some((v, rest)) => if all_blank(rest) { Some(v) } else { None }, None => None }
+}
+"""
+PARSE_CONTRACT = """        ensures
+            r matches Ok(v) ==> (!too_long(text) && (ref_parse(text@) matches Some(s) && version_is(v, s))),  // @Version::parse#accepts-only-whole-versions
+            r is Err ==> (too_long(text) || ref_parse(text@) is None),  // @Version::parse#accepts-every-version"""
+PARSE_ENTRY = "broadcast use winnow_defs, grammar_defs;\n        proof { match g_version(text@) { Some((_, rest)) => { lemma_all_blank(rest); }, None => {} } }\n        "
